@@ -54,3 +54,53 @@ Qed.
 
 Lemma gen_replace_child_at_index_eq t p i c : gen_replace_child_at_index t p i c = replace_child_at_index t p i c.
 Proof. unfold gen_replace_child_at_index, replace_child_at_index. crush. Qed.
+
+(* ---- loops *)
+Lemma tree_eta t : mkTree (t_nodes t) (t_ctx t) (t_children t) (t_parents t) = t.
+Proof. destruct t; reflexivity. Qed.
+
+(* for child in l { self.parents[child] = v } *)
+Lemma st_for_set_parent v : forall l t,
+  st_for l (fun t1 c => t2 <- st_set_parent t1 c v ;; Ok t2) t =
+  (p <- sm_set_all (t_parents t) l v ;; Ok (set_parents_map t p)).
+Proof.
+  induction l as [|c r IH]; intro t; cbn [st_for sm_set_all].
+  - cbn. unfold set_parents_map. now rewrite tree_eta.
+  - unfold st_set_parent at 1. unfold bind at 1 2 3. unfold bind at 2.
+    destruct (sm_set (t_parents t) c v); [|reflexivity].
+    rewrite IH. reflexivity.
+Qed.
+
+Lemma gen_remove_children_range_eq t p a b : gen_remove_children_range t p a b = remove_children_range t p a b.
+Proof.
+  unfold gen_remove_children_range, remove_children_range.
+  unfold st_vec_drain. unfold bind at 1 2.
+  destruct (sm_index (t_children t) p); [|reflexivity]. cbn [bind].
+  destruct (N.ltb b a || N.ltb (N.of_nat (length a0)) b); [reflexivity|].
+  unfold st_vec_write. unfold bind at 1 2. unfold bind at 4.
+  destruct (sm_set (t_children t) p (vec_drain_rest a0 (N.to_nat a) (N.to_nat b))); [|reflexivity].
+  cbn [bind fst snd]. rewrite st_for_set_parent. crush.
+Qed.
+
+Lemma gen_new_leaf_eq t : gen_new_leaf t = new_leaf t.
+Proof. unfold gen_new_leaf, new_leaf. crush. Qed.
+
+Lemma gen_new_with_children_eq t cs : gen_new_with_children t cs = new_with_children t cs.
+Proof. unfold gen_new_with_children, new_with_children. cbv zeta. rewrite st_for_set_parent. crush. Qed.
+
+Lemma gen_remove_eq t n : gen_remove t n = remove t n.
+Proof.
+  unfold gen_remove, remove. cbv zeta.
+  destruct (sm_index (t_parents t) n) as [pp|]; cbn [bind]; [|reflexivity].
+  destruct pp as [q|].
+  - unfold st_get_mut_retain_ne, st_vec_write.
+    destruct (sm_get (t_children t) q) eqn:Hq.
+    + destruct (sm_set (t_children t) q (retain_ne n l)) eqn:Hs; cbn [bind]; [|reflexivity].
+      unfold st_mark_dirty, mark_dirty, set_children_map. cbn [t_nodes bind].
+      destruct (sm_contains (t_nodes t) q); cbn [bind t_children]; [|reflexivity].
+      destruct (sm_get a n); [rewrite st_for_set_parent|]; crush.
+    + unfold st_mark_dirty, mark_dirty. cbn [bind].
+      destruct (sm_contains (t_nodes t) q); cbn [bind]; [|reflexivity].
+      destruct (sm_get (t_children t) n); [rewrite st_for_set_parent|]; crush.
+  - cbn [bind]. destruct (sm_get (t_children t) n); [rewrite st_for_set_parent|]; crush.
+Qed.
